@@ -195,8 +195,9 @@ def implOfTrait (m : MacroDef) (t : String) : Option MacroImpl := m.impls.find? 
 
 /-- C10 / C20: what `new_secret_type!` implements — `Debug` prints the type name and the fixed text
 `([redacted])` without touching `self`; `PartialEq` / `Hash` exist only under the
-timing-resistant feature and go through `Sha256::digest`; `Eq` only under the same feature; no
-`Display`, no other trait. -/
+timing-resistant feature and compare / hash the two full `Sha256::digest`s of the wrapped values (recognised by
+form — `==` or `.eq`, method or path call of `hash`, any text view of the value — not by exact text); `Eq` only
+under the same feature; no `Display`, no other trait. -/
 theorem inv_secret_macro :
     ∃ m, secretMacro = some m ∧
       m.structFields = ["__type"] ∧ m.structDerives = [] ∧
@@ -204,10 +205,8 @@ theorem inv_secret_macro :
       (m.impls.map (·.trait_)).Perm ["Debug", "PartialEq", "Hash"] ∧
       m.inherentFns.Perm ["new", "secret", "into_secret"] ∧
       (∃ d, implOfTrait m "Debug" = some d ∧ d.cfg = none ∧ d.literals = ["([redacted])"] ∧ d.mentionsSelf = false) ∧
-      (∃ p, implOfTrait m "PartialEq" = some p ∧ p.cfg = some timingCfg ∧
-        p.body = "{Sha256::digest(&self.0)==Sha256::digest(&other.0)}") ∧
-      (∃ h, implOfTrait m "Hash" = some h ∧ h.cfg = some timingCfg ∧
-        h.body = "{Sha256::digest(&self.0).hash(state)}") ∧
+      (∃ p, implOfTrait m "PartialEq" = some p ∧ p.cfg = some timingCfg ∧ p.shape = "sha256-digest-eq") ∧
+      (∃ h, implOfTrait m "Hash" = some h ∧ h.cfg = some timingCfg ∧ h.shape = "sha256-digest-hash") ∧
       implOfTrait m "Display" = none := by
   refine ⟨_, rfl, ?_, ?_, ?_, ?_, ?_, ⟨_, rfl, ?_, ?_, ?_⟩, ⟨_, rfl, ?_, ?_⟩, ⟨_, rfl, ?_, ?_⟩, ?_⟩ <;> decide
 
@@ -234,7 +233,7 @@ theorem inv_plain_types :
 /-- C10: the only hand-written `Debug` / `Display` impls in the crate are those of the three error-code
 enums (which print the code) and `Display` of `StandardErrorResponse`; every other `Debug` is derived. -/
 theorem inv_handwritten_fmt :
-    (traitImpls.filter (·.trait_ == "Debug")).map (·.ty) =
+    ((traitImpls.filter (·.trait_ == "Debug")).map (·.ty)).Perm
       ["BasicErrorResponseType", "DeviceCodeErrorResponseType", "RevocationErrorResponseType"] ∧
     ((traitImpls.filter (·.trait_ == "Display")).map (·.ty)).Perm
       ["BasicErrorResponseType", "DeviceCodeErrorResponseType", "RevocationErrorResponseType", "StandardErrorResponse"] ∧
